@@ -45,6 +45,13 @@ def main():
     strings += [''.join(rnd.choice(alpha) for _ in range(rnd.randint(4, 12)))
                 for _ in range(3000 if os.environ.get('VERIF_TIER') ==
                                'thorough' else 300)]
+    # raw code points that are not in a Unicode normal form, case variants
+    # of operator words, every kind of non-ASCII letter: a literal spells
+    # exactly its own code points
+    strings += ['\u212b', '\u2126', '\u037e', '\uf900', 'e\u0301',
+                '\u1100\u1161', '\u0958', '\U0001d15e', 'A\u030a',
+                '\ufb01', '\u00c5', '\u1e9b\u0323', 'AND', 'Or', 'NOT',
+                'In', 'Mod', 'TRUE', 'Null', '\u0130', '\u00df']
     n = 0
     for s in strings:
         for q in ("'", '"'):
